@@ -11,7 +11,7 @@ from kawin.solver import SolverType
 
 ITER = {'euler': SolverType.EXPLICITEULER, 'rk4': SolverType.RK4}
 VOLTYPE = {'VM': VolumeParameter.MOLAR_VOLUME, 'VA': VolumeParameter.ATOMIC_VOLUME, 'a': VolumeParameter.LATTICE_PARAMETER}
-AVO = 6.02214076e23
+from kawin.Constants import AVOGADROS_NUMBER as AVO
 
 _REAL = {}
 
@@ -346,3 +346,66 @@ def gen_solve_ops(rng, base=None, ncalls=None, floor_bound_prob=0.15):
                     'maxf': rng.choice([1.0, 1.0, 0.1, 0.05])})
         T = T * rng.choice([2, 5, 10])
     return ops
+
+
+def gen_run_record(rng, real_frac=0.15, real_kinds=('real_alzr', 'real_alzr', 'real_nicral', 'real_almgsi'), cap=250, real_cap=90, **cfgkw):
+    """A fault-free precipitation run record (config + solve ops), stub or real backend."""
+    if rng.random() >= real_frac:
+        cfg = gen_stub_config(rng, **cfgkw)
+        ops = gen_solve_ops(rng)
+        return {'cfg': cfg, 'ops': ops, 'cap': cap}
+    kind = rng.choice(list(real_kinds))
+    cfg = real_config(kind, rng)
+    base = {'real_alzr': 10.0, 'real_nicral': 0.3, 'real_almgsi': 10.0}[kind]
+    ops = []
+    T = base
+    for _ in range(rng.choice([2, 3, 3])):
+        ops.append({'op': 'solve', 'T': T, 'it': rng.choice(['euler', 'rk4']), 'minf': rng.choice([1e-2, 2e-2]), 'maxf': 1.0})
+        T *= 10
+    return {'cfg': cfg, 'ops': ops, 'cap': real_cap}
+
+
+def shrink_run_record(rec):
+    """Generic shrink candidates for precipitation run records."""
+    if len(rec['ops']) > 1:
+        for c in core.ddmin_candidates(rec['ops']):
+            if c:
+                r = copy.deepcopy(rec); r['ops'] = c; yield r
+    for i, op in enumerate(rec['ops']):
+        if op.get('op', 'solve') != 'solve':
+            continue
+        r = copy.deepcopy(rec); r['ops'][i]['T'] = op['T'] / 2; yield r
+        if op.get('it') != 'euler':
+            r = copy.deepcopy(rec); r['ops'][i]['it'] = 'euler'; yield r
+        if op.get('maxf', 1.0) != 1.0:
+            r = copy.deepcopy(rec); r['ops'][i]['maxf'] = 1.0; yield r
+    if rec.get('cap', 0) > 20:
+        r = copy.deepcopy(rec); r['cap'] = max(10, rec['cap'] // 2); yield r
+    cfg = rec['cfg']
+    if len(cfg['phases']) > 1 and not cfg['backend'].startswith('real_'):
+        for drop in cfg['phases']:
+            r = copy.deepcopy(rec)
+            r['cfg']['phases'] = [p for p in cfg['phases'] if p != drop]
+            r['cfg']['thermo_phase_order'] = [p for p in cfg['thermo_phase_order'] if p != drop]
+            yield r
+    if cfg.get('constraints'):
+        r = copy.deepcopy(rec); r['cfg']['constraints'] = {}; yield r
+        for k in list(cfg['constraints']):
+            r = copy.deepcopy(rec); del r['cfg']['constraints'][k]; yield r
+    for p in cfg['phases']:
+        pp = cfg['phase_params'][p]
+        for key, val in (('site', 'bulk'), ('shape', 'sphere'), ('infDiff', True)):
+            if pp.get(key, val) != val:
+                r = copy.deepcopy(rec); r['cfg']['phase_params'][p][key] = val
+                if key == 'shape':
+                    r['cfg']['phase_params'][p]['ar'] = 1.0
+                yield r
+        if pp['VmB'][1] != 'VM' and not cfg['backend'].startswith('real_'):
+            from ksim import refs
+            r = copy.deepcopy(rec); r['cfg']['phase_params'][p]['VmB'] = [refs.vm_from_spec(pp['VmB'])[0], 'VM', 4]; yield r
+    if cfg.get('betaBinary'):
+        r = copy.deepcopy(rec); del r['cfg']['betaBinary']; yield r
+    if cfg.get('T_via') == 'ctor':
+        r = copy.deepcopy(rec); r['cfg']['T_via'] = 'setter'; yield r
+    if cfg['pbm'].get('adaptive', True) is False:
+        r = copy.deepcopy(rec); r['cfg']['pbm']['adaptive'] = True; yield r
